@@ -6,6 +6,7 @@
 #include "common/dyn.h"
 #include "bitserializer/types/std/map.h"
 #include "bitserializer/types/std/vector.h"
+#include "bitserializer/types/std/chrono.h"
 #include <set>
 #include <deque>
 #include <list>
@@ -41,8 +42,10 @@ Val gen_tree(vf::Src& s, int depth, int archId) {
 	size_t n = 1 + s.draw(5); std::vector<std::pair<Val, Val>> m; for (size_t i = 0; i < n; i++) m.push_back({ refmp::mkStr("k" + std::to_string(i)), gen_tree(s, depth - 1, archId) }); return refmp::mkMap(m);
 }
 // a value that certainly cannot be loaded into a target of kind `t` in this archive (and is not nil, which is "not loaded" by design)
+bool g_allowExt = false, g_hasExt = false;   // the current document holds a non-timestamp ext value: only the reference encoder can write it
 Val offending_value(vf::Src& s, RT t, int archId) {
 	const bool typed = archId == MSGPACK || archId == JSON;
+	if (g_allowExt && archId == MSGPACK && s.chance(1, 6)) { static const size_t sizes[] = { 1, 2, 4, 8, 16, 3, 20, 300 }; Val v; v.t = RT::Ext; v.extType = static_cast<int8_t>(s.coin() ? 5 : static_cast<int>(s.draw(127)) + 1); v.s = std::string(sizes[s.draw(8)], static_cast<char>(0x91 + s.draw(8))); g_hasExt = true; return v; }   // an application-defined ext value mismatches every target
 	auto str = [&] { return refmp::mkStr("offence" + std::to_string(s.draw(100))); };
 	auto arr = [&] { return refmp::mkArr({ refmp::mkInt(-3), refmp::mkStr("zz") }); };
 	auto obj = [&] { return refmp::mkMap({ { refmp::mkStr("q"), refmp::mkInt(-4) }, { refmp::mkStr("r"), refmp::mkStr("yy") } }); };
@@ -91,12 +94,16 @@ const char* compare(const Val& clean, const Val& flags, const Val& loaded, const
 }
 
 template <class A> void run_dyn(vf::Ctx& c, int archId) {
+	g_hasExt = false; g_allowExt = true; struct Reset { ~Reset() { g_allowExt = false; } } reset;
 	Val clean = gen_tree(c.src, 3, archId); if (clean.t != RT::Arr && clean.t != RT::Map) clean = refmp::mkArr({ clean, gen_leaf(c.src, archId), gen_leaf(c.src, archId) });
 	if (archId == XML && clean.t == RT::Arr) clean = refmp::mkMap({ { refmp::mkStr("root"), clean } });
 	Val doc, flags; size_t count = 0; bool followed = false; offend(c.src, clean, doc, flags, archId, count, followed, false, true, 1 + c.src.draw(6));
 	const Val env = archId == XML ? refmp::mkMap({ { refmp::mkStr("t"), doc }, { refmp::mkStr("z"), refmp::mkStr("sentinel") } }) : refmp::mkArr({ doc, refmp::mkStr("sentinel") });
 	const Val envClean = archId == XML ? refmp::mkMap({ { refmp::mkStr("t"), clean }, { refmp::mkStr("z"), refmp::mkStr("sentinel") } }) : refmp::mkArr({ clean, refmp::mkStr("sentinel") });
-	Cfg mem; std::string bytes; Outcome so = dyn::save<A>(env, bytes, mem); if (!so.ok()) c.fail("saving the document failed", so.str());
+	Cfg mem; std::string bytes; Outcome so;
+	if (archId == MSGPACK && (g_hasExt || c.src.chance(1, 4))) { refmp::encode(bytes, env, [&](size_t n) -> size_t { return n <= 1 ? 0 : c.src.draw(n); }); c.label("reference-encoder"); }   // any legal width, ext values
+	else so = dyn::save<A>(env, bytes, mem);
+	if (!so.ok()) c.fail("saving the document failed", so.str());
 	Cfg cfg; cfg.stream = c.src.coin(); cfg.streamKind = cfg.stream ? static_cast<int>(c.src.draw(2)) : 0; cfg.chunk = 1 + c.src.draw(40);
 	cfg.opt.mismatchedTypesPolicy = MismatchedTypesPolicy::Skip; cfg.opt.overflowNumberPolicy = OverflowNumberPolicy::Skip;
 	c.nontrivial = followed; c.label(vf::cat("offences=", count > 3 ? 4 : count)); if (followed) c.label("offence-followed-by-more-data");
@@ -110,9 +117,10 @@ template <class A> void run_dyn(vf::Ctx& c, int archId) {
 }
 
 // typed object with Required validators on every field
+using TpNs = std::chrono::time_point<std::chrono::system_clock, std::chrono::nanoseconds>;
 struct Rec {
-	int64_t a = -1; std::string b = "<b>"; double cdbl = -1.5; std::vector<int64_t> d{ -9 }; bool e = false; uint32_t f = 77;
-	template <class Ar> void Serialize(Ar& ar) { ar << KeyValue("a", a, Required()) << KeyValue("b", b, Required()) << KeyValue("c", cdbl, Required()) << KeyValue("d", d, Required()) << KeyValue("e", e, Required()) << KeyValue("f", f, Required()); }
+	int64_t a = -1; std::string b = "<b>"; double cdbl = -1.5; std::vector<int64_t> d{ -9 }; bool e = false; uint32_t f = 77; TpNs g{ std::chrono::nanoseconds(42) };
+	template <class Ar> void Serialize(Ar& ar) { ar << KeyValue("a", a, Required()) << KeyValue("b", b, Required()) << KeyValue("c", cdbl, Required()) << KeyValue("d", d, Required()) << KeyValue("e", e, Required()) << KeyValue("f", f, Required()) << KeyValue("g", g, Required()); }
 };
 struct RecCsv {
 	int64_t a = -1; std::string b = "<b>"; double cdbl = -1.5; std::vector<int64_t> d{ -1, -2, -3 }; bool e = false; uint32_t f = 77;
@@ -122,11 +130,12 @@ template <class A> void run_required(vf::Ctx& c, int archId) {
 	const bool typed = archId == MSGPACK || archId == JSON;
 	std::vector<std::pair<std::string, Val>> clean = { { "a", refmp::mkInt(-5 - static_cast<int64_t>(c.src.draw(1000))) }, { "b", refmp::mkStr("text" + std::to_string(c.src.draw(100))) }, { "c", refmp::mkF64(0.25 + static_cast<double>(c.src.draw(100))) },
 		{ "d", refmp::mkArr({ refmp::mkInt(-1), refmp::mkInt(-2), refmp::mkInt(-3) }) }, { "e", archId == XML || archId == CSV ? refmp::mkStr("true") : refmp::mkBool(true) }, { "f", refmp::mkUInt(c.src.draw(100000)) } };
+	if (archId != CSV) clean.push_back({ "g", archId == MSGPACK ? refmp::mkTs(1700000000, 5) : refmp::mkStr("2023-11-14T22:13:20.000000005Z") });   // a time point (binary timestamp in MessagePack, ISO text elsewhere)
 	if (archId == CSV) clean.erase(clean.begin() + 3);
 	std::set<std::string> offended; std::vector<std::pair<Val, Val>> m; bool followed = false;
 	for (size_t i = 0; i < clean.size(); i++) { Val v = clean[i].second; if (c.src.chance(1, 3)) { const std::string& k = clean[i].first;
 			if (k == "a") v = typed ? offending_value(c.src, RT::Int, archId) : refmp::mkStr("abc"); else if (k == "b") { if (archId == CSV) { m.push_back({ refmp::mkStr(k), v }); continue; } v = offending_value(c.src, RT::Str, archId); } else if (k == "c") v = typed ? offending_value(c.src, RT::F64, archId) : refmp::mkStr("x1.5"); else if (k == "d") v = offending_value(c.src, RT::Arr, archId);
-			else if (k == "e") v = typed ? offending_value(c.src, RT::Bool, archId) : refmp::mkStr("maybe"); else v = typed ? (c.src.coin() ? refmp::mkUInt(5000000000ull) : refmp::mkInt(-1)) : refmp::mkStr(c.src.coin() ? "5000000000" : "-1");
+			else if (k == "e") v = typed ? offending_value(c.src, RT::Bool, archId) : refmp::mkStr("maybe"); else if (k == "g") v = archId == MSGPACK ? (c.src.coin() ? refmp::mkTs(253402300799LL, 0) : refmp::mkStr("not a timestamp")) : refmp::mkStr(c.src.coin() ? "9999-12-31T23:59:59Z" : "2023-13-45T00:00:00Z"); else v = typed ? (c.src.coin() ? refmp::mkUInt(5000000000ull) : refmp::mkInt(-1)) : refmp::mkStr(c.src.coin() ? "5000000000" : "-1");
 			if (archId == CSV && (v.t == RT::Arr || v.t == RT::Map)) v = refmp::mkStr("zzz");
 			offended.insert(k); if (i + 1 < clean.size()) followed = true; }
 		m.push_back({ refmp::mkStr(clean[i].first), v }); }
@@ -152,6 +161,7 @@ template <class A> void run_required(vf::Ctx& c, int archId) {
 		if (has("c") ? rec.cdbl != -1.5 : rec.cdbl != clean[2].second.d) c.fail("field c: skipped target modified or neighbour disturbed", d);
 		if (!has("d") && rec.d != std::vector<int64_t>{ -1, -2, -3 }) c.fail("field d: neighbour disturbed", d);
 		if (has("f") ? rec.f != 77 : rec.f != clean[5].second.u) c.fail("field f: skipped target modified or neighbour disturbed", d);
+		if constexpr (!std::is_same_v<A, CsvArchive>) if (has("g") ? rec.g != TpNs(std::chrono::nanoseconds(42)) : rec.g != TpNs(std::chrono::nanoseconds(1700000000000000005LL))) c.fail("field g: skipped target modified or neighbour disturbed", d);
 	}
 }
 
